@@ -135,7 +135,7 @@ def gen_blocks(r, depth=0, plain=False, n=None, in_item=False):
                 mark = "+"   # '* ***' is a thematic break, not an item holding one
                 if prev == "list" and out[-1][5] == mark:
                     continue
-            b = ("list", ordered, r.choice([1, 1, 2, 7, 10, 8, 9, 98, 99]) if ordered else 1, tight, items, mark)
+            b = ("list", ordered, r.choice([1, 1, 2, 7, 10, 8, 9, 98, 99, 0, 0, 999999997]) if ordered else 1, tight, items, mark)
         if b[0] == "indented" and prev in ("para",):
             continue
         out.append(b)
